@@ -19,7 +19,8 @@ import (
 var mustRefuse = map[string]bool{"frozen": true, "forbidden": true, "pause": true, "registering": true, "unavailable": true, "<none>": true}
 
 type objView struct {
-	Status string `json:"status"`
+	Status     string              `json:"status"`
+	Permission map[string]struct{} `json:"permission"` // services: the sources this service blocks
 }
 
 type proposalView struct {
@@ -56,12 +57,14 @@ type mProposal struct {
 }
 
 type govModel struct {
-	s         *scn
-	proposals map[string]*mProposal
-	open      []string          // ids in creation order (for vote targeting)
-	objStatus map[string]string // "chain:<id>" / "svc:<chain>:<id>" -> status after the previous block
-	objRaw    map[string]string
-	forbidden map[string]bool
+	s          *scn
+	proposals  map[string]*mProposal
+	open       []string          // ids in creation order (for vote targeting)
+	objStatus  map[string]string // "chain:<id>" / "svc:<chain>:<id>" -> status after the previous block
+	objRaw     map[string]string
+	forbidden  map[string]bool
+	blocked    map[string]map[string]bool // "svc:<chain>:<id>" -> full ids of the sources it blocked after the previous block
+	blockedNow map[string]map[string]bool
 }
 
 func newGovModel(s *scn) *govModel {
@@ -88,7 +91,31 @@ func applyGov(s *scn, st CStep) {
 			method = "Freeze"
 		}
 		target := ""
-		if st.Obj == "service" && st.Act == "register" {
+		if st.Obj == "role" {
+			// lifecycle of a governance administrator (never admin 0 when there are others: somebody must stay able to act)
+			w := s.cfg.World
+			i := st.B % w.Admins
+			if w.Admins > 1 && i == 0 {
+				i = 1
+			}
+			addr := w.adminKey(i).Addr.String()
+			k = w.adminKey(st.N % w.Admins)
+			if role == "outsider" {
+				k = s.users[len(s.users)-1]
+			}
+			target = addr
+			tx = s.b.bvm(k, constant.RoleContractAddr, method+"Role", pb.String(addr), pb.String("reason"))
+		} else if st.Obj == "service" && st.Act == "block" {
+			// the service's owner blocks (or unblocks) a source: no proposal, takes effect at once
+			sv := c.services[st.B%len(c.services)]
+			target = c.id + ":" + sv.id
+			permits := ""
+			if len(s.pairs) > 0 && st.N%4 != 3 {
+				permits = s.pairs[st.N%len(s.pairs)].src.full(s.cfg.World.ChainID)
+			}
+			tx = s.b.bvm(c.admin, constant.ServiceMgrContractAddr, "UpdateService", pb.String(target), pb.String("nm-"+c.id+sv.id), pb.String("intro"), pb.String(permits), pb.String("details"), pb.String("reason"))
+			k = c.admin
+		} else if st.Obj == "service" && st.Act == "register" {
 			sv := c.services[st.B%len(c.services)]
 			target = c.id + ":" + sv.id
 			tx = s.b.bvm(k, constant.ServiceMgrContractAddr, "RegisterService", pb.String(c.id), pb.String(sv.id), pb.String("nm-"+c.id+sv.id), pb.String("CallContract"),
@@ -148,14 +175,26 @@ func (gm *govModel) observe() (map[string]string, map[string]string) {
 			keys = append(keys, "svc:"+c.id+":"+sv.id)
 		}
 	}
+	for i := 0; i < s.cfg.World.Admins; i++ {
+		a := s.cfg.World.adminKey(i).Addr.String()
+		q = append(q, viewTx(who, constant.RoleContractAddr, "GetRoleInfoById", pb.String(a)))
+		keys = append(keys, "role:"+a)
+	}
 	rcs := r.viewCall(q...)
 	st, raw := map[string]string{}, map[string]string{}
+	gm.blockedNow = map[string]map[string]bool{}
 	for i, k := range keys {
 		if i < len(rcs) && rcs[i] != nil && rcs[i].Status == pb.Receipt_SUCCESS {
 			o := objView{}
 			_ = json.Unmarshal(rcs[i].Ret, &o)
 			st[k] = o.Status
 			raw[k] = string(rcs[i].Ret)
+			if len(o.Permission) > 0 {
+				gm.blockedNow[k] = map[string]bool{}
+				for p := range o.Permission {
+					gm.blockedNow[k][p] = true
+				}
+			}
 		} else {
 			st[k] = "<none>"
 		}
@@ -198,7 +237,9 @@ func afterBlockGov(s *scn, h uint64, txs []*pb.BxhTransaction, metas []*txMeta, 
 		return
 	}
 	prevSt := gm.objStatus
+	prevBlocked := gm.blocked
 	curSt, curRaw := gm.observe()
+	gm.blocked = gm.blockedNow
 	// ---- which objects were legitimately touched in this block
 	touched := map[string]bool{}
 	govTxInBlock := false
@@ -223,6 +264,13 @@ func afterBlockGov(s *scn, h uint64, txs []*pb.BxhTransaction, metas []*txMeta, 
 					touched[p.ObjId] = true
 				}
 			}
+		}
+	}
+	// a proposal concluded in this block for whatever reason (votes, a change of the electorate, a higher-priority
+	// proposal) is "its approval or rejection" for the object it governs
+	for _, id := range gm.open {
+		if pv, _ := gm.proposal(id); pv != nil && pv.Status != "proposed" && pv.Status != "pause" {
+			touched[pv.ObjId] = true
 		}
 	}
 	// ---- C16 (ii) + (iii): status changes only with cause; forbidden is absorbing
@@ -294,6 +342,12 @@ func afterBlockGov(s *scn, h uint64, txs []*pb.BxhTransaction, metas []*txMeta, 
 			if mustRefuse[src] || (dstKnown && mustRefuse[dst]) {
 				s.res.Count("probe_ibtp_against_unusable_service")
 			}
+			if prevBlocked["svc:"+tp[1]+":"+tp[2]][ib.From] && gm.blocked["svc:"+tp[1]+":"+tp[2]][ib.From] {
+				s.res.Count("probe_ibtp_from_blocked_source")
+				if accepted && !beginFailed {
+					s.vio("C16", "request-recorded-for-blocking-destination", "", "block %d tx %d: request %s-%s-%d recorded for execution although the destination service blocks that source (its stored record lists it)", h, i, ib.From, ib.To, ib.Index)
+				}
+			}
 		}
 	}
 	gm.objStatus, gm.objRaw = curSt, curRaw
@@ -329,6 +383,9 @@ func afterBlockGov(s *scn, h uint64, txs []*pb.BxhTransaction, metas []*txMeta, 
 		s.res.Count("votes_accepted")
 		mp := gm.proposals[mt.target]
 		voter := mt.sender.Addr.String()
+		if a, b := prevSt["role:"+voter], curSt["role:"+voter]; (a == "frozen" || a == "forbidden") && a == b {
+			s.vio("C15", "vote-by-unavailable-admin-accepted", a, "block %d tx %d: a vote on %s by administrator %s, whose role is %s, was accepted", h, i, mt.target, voter, a)
+		}
 		if !admins[voter] {
 			s.vio("C15", "vote-by-non-admin-accepted", "", "block %d tx %d: a vote on %s by %s, which is not an administrator, was accepted", h, i, mt.target, voter)
 		}
@@ -366,6 +423,27 @@ func afterBlockGov(s *scn, h uint64, txs []*pb.BxhTransaction, metas []*txMeta, 
 			// (tallies of proposals created in this very block may include votes cast before the model saw them)
 			if mp.createdAt != h && (pv.ApproveNum != a || pv.AgainstNum != r) {
 				s.vio("C15", "tally-mismatch", "", "after block %d proposal %s reports %d approvals / %d rejections, the accepted votes are %d / %d", h, id, pv.ApproveNum, pv.AgainstNum, a, r)
+			}
+		}
+		s.logf("  proposal %s %s/%s status=%s approve=%d against=%d initial=%d available=%d end=%q", id[len(id)-8:], pv.Typ, pv.EventType, pv.Status, pv.ApproveNum, pv.AgainstNum, pv.InitialElectorateNum, pv.AvailableElectorateNum, pv.EndReason)
+		if pv.Status == "proposed" && mp.createdAt != h {
+			// "evaluated against the current number of available electors": the recorded number must be the number of
+			// electors of this proposal whose role is available now (skipped while any of them is in a transitional status)
+			real, settled := uint64(0), true
+			for _, e := range pv.ElectorateList {
+				switch curSt["role:"+e.ID] {
+				case "available":
+					real++
+				case "frozen", "forbidden":
+				default:
+					settled = false
+				}
+			}
+			if settled && len(pv.ElectorateList) > 0 {
+				s.res.Count("probe_available_electorate_checked")
+				if pv.AvailableElectorateNum != real {
+					s.vio("C15", "available-electorate-mismatch", "", "after block %d open proposal %s records %d available electors, %d of its %d electors have an available role", h, id, pv.AvailableElectorateNum, real, len(pv.ElectorateList))
+				}
 			}
 		}
 		if pv.Status == "proposed" || pv.Status == "pause" {
@@ -425,8 +503,33 @@ func afterBlockGov(s *scn, h uint64, txs []*pb.BxhTransaction, metas []*txMeta, 
 	for _, id := range ids {
 		mp := gm.proposals[id]
 		if _, raw := gm.proposal(id); raw != "" && raw != mp.frozen {
-			s.vio("C15", "finished-proposal-changed", mp.concluded, "after block %d: proposal %s concluded as %s in block %d but its record changed afterwards", h, id, mp.concluded, mp.endBlock)
+			s.vio("C15", "finished-proposal-changed", mp.concluded, "after block %d: proposal %s concluded as %s in block %d but its record changed afterwards: %s", h, id, mp.concluded, mp.endBlock, jsonFieldDiff(mp.frozen, raw))
 			mp.frozen = raw
 		}
 	}
+}
+
+// jsonFieldDiff names the top-level fields in which two JSON objects differ.
+func jsonFieldDiff(a, b string) string {
+	var ma, mb map[string]json.RawMessage
+	if json.Unmarshal([]byte(a), &ma) != nil || json.Unmarshal([]byte(b), &mb) != nil {
+		return "(not comparable)"
+	}
+	var out []string
+	for k, va := range ma {
+		if vb, ok := mb[k]; !ok || string(va) != string(vb) {
+			out = append(out, fmt.Sprintf("%s: %s -> %s", k, string(va), string(mb[k])))
+		}
+	}
+	for k := range mb {
+		if _, ok := ma[k]; !ok {
+			out = append(out, fmt.Sprintf("%s: (absent) -> %s", k, string(mb[k])))
+		}
+	}
+	sort.Strings(out)
+	r := strings.Join(out, "; ")
+	if len(r) > 400 {
+		r = r[:400] + "…"
+	}
+	return r
 }
